@@ -1155,7 +1155,9 @@ def check_c16(idx: Index, tier: str, res: Result) -> None:
     dl = im.methods["_delete_instance"][-1]
     dels = [n for n in walk_no_nested(dl.node) if isinstance(n, ast.Delete)]
     p = params(dl.node)[1]
-    ok = len(dels) == 1 and src(dels[0].targets[0]) == "self._instances[%s]" % p
+    pops = [c for c in iter_calls(dl.node) if call_name(c) == "pop" and dotted(c.func.value) == "self._instances"]
+    ok = (len(dels) == 1 and not pops and src(dels[0].targets[0]) == "self._instances[%s]" % p) or \
+        (not dels and len(pops) == 1 and pops[0].args and src(pops[0].args[0]) == p)
     res.check("OWNID", "_delete_instance removes only the addressed id", ok, dl.loc(), dl.qual, norm_stmt(dels[0]) if dels else "",
               "_delete_instance removes %s" % (norm_stmt(dels[0]) if dels else "?"), key="OWNID/_delete_instance")
     clears = [c for fi in idx.all_funcs("BPTK_Py/server/") for c in iter_calls(fi.node) if call_name(c) == "clear" and "_instances" in src(c.func.value)]
